@@ -186,6 +186,19 @@ def shape_jobs():
                     {"k": "cpp_class", "doc": outer_doc, "name": "Queue"}] + [dict(e) for e in node])
         jobs.append([dict(e) for e in node] + [dict(e) for e in node])
         jobs.append([{"k": "cpp_class", "doc": outer_doc, "name": "Twice"}] + [dict(e) for e in node] + [dict(e) for e in node])
+    # a class nested (directly, or two levels down) inside a still-open class of the SAME name; after it is closed the
+    # outer class goes on declaring attributes, members and constructors
+    cl = {"k": "close"}
+    for doc in (1, 0):
+        for mid in ([], [{"k": "cpp_class", "doc": 1, "name": "Section"}]):
+            outer = {"k": "cpp_class", "doc": 1, "name": "Config", "doctext": ["Outer config."]}
+            inner = {"k": "cpp_class", "doc": doc, "name": "Config", "doctext": ["Inner config."]}
+            a = lambda n: {"k": "cpp_attr", "doc": doc, "name": n, "default": "d_" + n}
+            m = lambda n: {"k": "cpp_member", "doc": doc, "name": n, "types": ["int"], "params": ["a"]}
+            jobs.append([dict(outer), a("before")] + [dict(e) for e in mid] + [dict(inner), a("inside"), m("in_get"), cl, cl]
+                        + ([a("mid_attr"), cl] if mid else []) + [a("after"), m("after_get"), cl,
+                           {"k": "cpp_constructor", "doc": doc, "types": ["int"], "params": ["x"]}])
+            jobs.append([dict(outer)] + [dict(e) for e in mid] + [dict(inner), cl] + ([cl] if mid else []) + [a("after"), m("after_get")])
     for cn, an, dv in ATTR_SHAPES:
         for doc in (1, 0):
             cls = {"k": "cpp_class", "doc": 1, "name": cn, "bases": ["Base"]}
